@@ -116,8 +116,10 @@ def gen_C04(rng, tier):
     add_outpre(rng, scn)
     if rng.random() < 0.25:
         add_failures(rng, scn, 0.2)
-    if rng.random() < 0.3:
-        add_tokens(rng, scn, kinds=("file",))
+    if rng.random() < 0.45:
+        # (tokens matter here because their notifications reach a job that still waits for an
+        # upstream: small totals and many holders make a token's status flap while it waits)
+        add_tokens(rng, scn, kinds=("file",), p_task=0.9, max_total=3)
     nproc = 1 if rng.random() < 0.6 else 2
     for i in range(nproc):
         sub = None if i == 0 else sorted(rng.sample(range(n), rng.randint(1, n)))
@@ -180,9 +182,31 @@ def gen_rerun_after_clean(rng, tier):
     return scn
 
 
+def gen_C06_adopt(rng, tier):
+    """Truthfulness for adopted jobs: the first run is killed while a job runs, the second run
+    of the same experiment adopts the process, which then ends on its own, fails, or is killed
+    (SIGKILL: no marker at all)."""
+    scn = base(rng, 1, 4, p_dep=0.4)
+    n = len(scn["tasks"])
+    if rng.random() < 0.3:
+        add_failures(rng, scn, 0.3)
+    scn["cfg"]["body_len"] = rng.choice([8, 20, 50])
+    first = {"xp": "x0", "plan": simple_plan(rng, n) + [["xpwait"]],
+             "crash": {"sig": rng.choice(["KILL", "TERM"]), "trigger": {"event": "body-start", "nth": rng.randint(1, 2), "delay": rng.choice([0, 2, 6])}}}
+    second = {"xp": "x0", "plan": simple_plan(rng, n) + [["xpwait"]], "start": {"after_exit": 0}}
+    if rng.random() < 0.7:
+        scn["jobfaults"] = [{"x": None, "sig": rng.choice(["KILL", "KILL", "KILL", "TERM", "INT"]), "when": "adopted",
+                             "delay": rng.choice([0, 1, 3, 8, 20])}]
+    scn["procs"] += [first, second]
+    return scn
+
+
 def gen_C06(rng, tier):
-    if rng.random() < 0.12:
+    r0 = rng.random()
+    if r0 < 0.12:
         return gen_rerun_after_clean(rng, tier)
+    if r0 < 0.22:
+        return gen_C06_adopt(rng, tier)
     scn = base(rng, 1, 6)
     n = len(scn["tasks"])
     r = rng.random()
@@ -284,7 +308,7 @@ def gen_C08_contended(rng, tier):
 
 
 def gen_C08(rng, tier):
-    if rng.random() < 0.4:
+    if rng.random() < 0.5:
         return gen_C08_contended(rng, tier)
     scn = base(rng, 3, 7, p_dep=0.3)
     n = len(scn["tasks"])
@@ -306,7 +330,36 @@ def gen_C08(rng, tier):
     return scn
 
 
+def gen_C09_orphan(rng, tier):
+    """A scheduler is killed while its first job holds the token; the job goes on as an orphan.
+    Either the orphan is then killed hard (its pid file and token file stay) and the experiment
+    is started again once it is dead, or the experiment is started again while the orphan still
+    runs (line-level pre-emption: the orphan's end meets the new scheduler's token operations)."""
+    scn = base(rng, 2, 5, p_dep=0.3)
+    n = len(scn["tasks"])
+    total = rng.randint(1, 2)
+    scn["tokens"] = [{"kind": "file", "total": total}]
+    for t in scn["tasks"]:
+        t["tok"] = [[0, rng.randint(1, total)]]
+    scn["cfg"]["body_len"] = rng.choice([10, 25, 60])
+    killed = rng.random() < 0.5
+    p0 = {"xp": "x0", "plan": simple_plan(rng, n, waits=False) + [["xpwait"]],
+          "crash": {"sig": rng.choice(["KILL", "KILL", "TERM"]), "trigger": {"event": "body-start", "nth": 1, "delay": rng.randint(0, 4)}}}
+    p1 = {"xp": "x0", "plan": simple_plan(rng, n, waits=rng.random() < 0.3) + [["xpwait"], ["linger"]], "start": {"after_exit": 0}}
+    if killed:
+        scn["jobfaults"].append({"x": None, "sig": "KILL", "when": "body", "nth": 1, "delay": rng.randint(6, 30)})
+        p1["start"]["jobs_ended"] = True
+    else:
+        scn["cfg"]["trace"] = True
+        scn["cfg"]["preempt"] = rng.choice([12, 25, 50])
+    scn["procs"] += [p0, p1]
+    scn["cfg"]["audit"] = True
+    return scn
+
+
 def gen_C09(rng, tier):
+    if rng.random() < 0.15:
+        return gen_C09_orphan(rng, tier)
     scn = gen_C08(rng, tier)
     n = len(scn["tasks"])
     r = rng.random()
@@ -364,7 +417,14 @@ def gen_C11(rng, tier):
     if rng.random() < 0.15:
         add_failures(rng, scn, 0.3)
     plan = simple_plan(rng, n, waits=rng.random() < 0.5) + [["xpwait"]]
-    scn["procs"].append({"xp": "x0", "plan": plan, "crash": crash_spec(rng)})
+    crash = crash_spec(rng)
+    if rng.random() < 0.12:
+        # fault placed inside in-flight state: the scheduler dies right after it started a job
+        # process, i.e. (mostly) before the pid file of that process exists
+        # (no scheduling point lies between the two, so the crash point is a traced line: the
+        # k-th line executed inside aio_run, k around the start of the process)
+        crash = {"sig": rng.choice(["KILL", "KILL", "TERM"]), "trigger": {"func": "aio_run", "k": rng.randint(10, 24)}}
+    scn["procs"].append({"xp": "x0", "plan": plan, "crash": crash})
     start = {"after_exit": 0}
     if rng.random() < 0.3:
         start["jobs_ended"] = True
